@@ -138,7 +138,9 @@ PIECES = ["<style>", "</style>", "<script>", "</script>", "<xmp>", "</xmp>", "<i
           "<wbr>", "<embed src=a>", "<svg><link>", "<svg><br>", "<math><img>", "<area>", "<base>", "<col>", "<source>",
           "<track>", "<param name=a>", "<keygen>", "<command hidden default=d>", "<event-source>", "<basefont>", "<bgsound>",
           "<pre>\n\n", "<textarea>\n\nx", "<listing>\n\n", "<pre>&#10;", "<body><noscript>&lt;b&gt;", "<noscript><!--c-->",
-          "<svg><style>a&gt;b", "<xmp>&lt;", "<title>&amp;lt;", "<p><b></p><textarea>", "<b><plaintext>"]
+          "<svg><style>a&gt;b", "<xmp>&lt;", "<title>&amp;lt;", "<p><b></p><textarea>", "<b><plaintext>",
+          "<body><noscript><style>a</style>&lt;i&gt;", "<svg><style><script>x</script>&lt;b&gt;</style>",
+          "<noscript><iframe></iframe>&amp;amp;"]
 
 
 def c08_doc(rng):
@@ -207,7 +209,7 @@ def run(ctx):
              else {"text": 2, "attr": 2, "misc": 3, "cross": 1, "table": 1})
     ctx.assumptions = list(ASSUMED)
     ctx.constants = {
-        "MC modes": {"text": "19 lexical contexts x text (all strings <= %d over the danger alphabet < > & \" ' ` = / - ! space "
+        "MC modes": {"text": "21 lexical contexts (incl. nested raw-text elements) x text (all strings <= %d over the danger alphabet < > & \" ' ` = / - ! space "
                              "CR a, plus 21 longer specials) x escape_rcdata" % sizes["text"],
                      "attr": "12 (element, attribute) subjects incl. void, boolean, xlink:/xml:/xmlns: x values (all strings "
                              "<= %d over the danger alphabet plus 20 specials) x up to 108 option vectors" % sizes["attr"],
